@@ -114,6 +114,22 @@ func Data(c *vf.Ctx, prefix string, depth int) objhist.Stats {
 		Decode: func(o any, b []byte) (int, error) { return o.(*data.Data).Unmarshal(b) },
 		Fields: func(o any) string { d := o.(*data.Data); return fmt.Sprintf("bytes=%x", d.GetBytes()) },
 		Depth:  depth,
+		// a block that announces more bytes than follow must be refused; what Add builds on top of whatever the
+		// object then holds must still be framed by its own byte count
+		BadInputs: []objhist.Bad{{Name: "count=10 with 2 bytes", Bytes: []byte{10, 0, 0xAA, 0xBB}}, {Name: "count=0x0105 with none", Bytes: []byte{5, 1}}},
+		Mutators: []objhist.Value{
+			{Name: "Add(3B)", Set: func(o any) { o.(*data.Data).Add([]byte{7, 8, 9}) }},
+			{Name: "Add(0B)", Set: func(o any) { o.(*data.Data).Add(nil) }},
+		},
+		Consistent: func(enc []byte) string {
+			if len(enc) < 2 {
+				return "shorter than the ByteCount field"
+			}
+			if n := int(enc[0]) | int(enc[1])<<8; n != len(enc)-2 {
+				return fmt.Sprintf("ByteCount announces %d bytes, %d follow", n, len(enc)-2)
+			}
+			return ""
+		},
 	})
 }
 
